@@ -1,8 +1,596 @@
-//! Part (a): patches of real engine ticks (placeholder until measured).
-use mc::{Report, Value};
+//! Part (a) of the design: "for every committed tick, applying the emitted patch to the pre-tick
+//! state reproduces the post-tick state exactly".
+//!
+//! The rule-program layer that drives `Engine` is built separately (harness/rules), so ticks are
+//! *emulated at the op level with the engine's own two steps* (engine_impl.rs):
+//!
+//! * `apply_reserved_rewrites`: the merged ops `O` of all executors are applied with
+//!   `WarpTickPatchV1::new(.., O).apply_to_state(&mut state)` (an error aborts the tick);
+//! * `commit_with_receipt`: the emitted patch is `WarpTickPatchV1::new(.., diff_state(&before, &state))`.
+//!
+//! So for every pre-state `a` of a universe and every set `O` of ops from a small alphabet over
+//! the universe's ids (|O| <= k), this module runs exactly those two steps on the real code; when
+//! the live application succeeds (the tick would commit) the emitted patch is replayed on a clone
+//! of the pre-state and must be `Ok` and reproduce the post-state (content, coherent store, state
+//! root).  Here — unlike for arbitrary state pairs — a typed error on replay *is* a violation.
+//! Not modelled: matching, scheduling, footprint enforcement, the merge's conflict detection (an op
+//! set stands for the already merged delta; sets that `check_write_to_new_warp` would reject are
+//! skipped; sets with two ops of the same sort key are never generated).
 
-pub fn run(_r: &Report) {}
+use std::collections::BTreeMap;
 
-pub fn replay(r: &Report, _case: &Value) {
-    r.machinery_error("engine-tick replay not available");
+use mc::{json, Report, Value};
+use pairlib::*;
+use rayon::prelude::*;
+use warp_core::verif_hooks as hooks;
+use warp_core::{
+    AttachmentOwner, NodeRecord, PortalInit, TickCommitStatus, WarpOp, WarpState, WarpTickPatchV1,
+    POLICY_ID_NO_POLICY_V0,
+};
+use world::{RefAtt, RefEdge, RefInstance, RefSlot, RefState, Universe};
+
+fn patch_of(ops: Vec<WarpOp>) -> WarpTickPatchV1 {
+    WarpTickPatchV1::new(
+        POLICY_ID_NO_POLICY_V0,
+        [0u8; 32],
+        TickCommitStatus::Committed,
+        vec![],
+        vec![],
+        ops,
+    )
+}
+
+fn up_node(u: &Universe, w: u8, n: u8, t: u8) -> WarpOp {
+    WarpOp::UpsertNode {
+        node: u.node_key(w, n),
+        record: NodeRecord { ty: u.ty(t) },
+    }
+}
+fn del_node(u: &Universe, w: u8, n: u8) -> WarpOp {
+    WarpOp::DeleteNode {
+        node: u.node_key(w, n),
+    }
+}
+fn up_edge(u: &Universe, w: u8, e: u8, from: u8, to: u8, ty: u8) -> WarpOp {
+    WarpOp::UpsertEdge {
+        warp_id: u.warp(w),
+        record: u.edge_record(e, &RefEdge { from, to, ty }),
+    }
+}
+fn del_edge(u: &Universe, w: u8, e: u8, from: u8) -> WarpOp {
+    WarpOp::DeleteEdge {
+        warp_id: u.warp(w),
+        from: u.node(from),
+        edge_id: u.edge(e),
+    }
+}
+fn set_att(u: &Universe, s: RefSlot, v: Option<RefAtt>) -> WarpOp {
+    WarpOp::SetAttachment {
+        key: u.slot_key(s),
+        value: v.map(|a| u.att_value(&a)),
+    }
+}
+fn open_portal(u: &Universe, s: RefSlot, child: u8, root: u8, t: u8) -> WarpOp {
+    WarpOp::OpenPortal {
+        key: u.slot_key(s),
+        child_warp: u.warp(child),
+        child_root: u.node(root),
+        init: PortalInit::Empty {
+            root_record: NodeRecord { ty: u.ty(t) },
+        },
+    }
+}
+
+/// Full single-instance alphabet over U_A's ids: 65 ops.
+fn alphabet_a_full(u: &Universe) -> Vec<WarpOp> {
+    let mut v = Vec::new();
+    for n in 0..3 {
+        for t in 0..2 {
+            v.push(up_node(u, 0, n, t));
+        }
+    }
+    for n in 1..3 {
+        v.push(del_node(u, 0, n));
+    }
+    for e in 0..2 {
+        for f in 0..3 {
+            for t in 0..3 {
+                for ty in 0..2 {
+                    v.push(up_edge(u, 0, e, f, t, ty));
+                }
+            }
+            v.push(del_edge(u, 0, e, f));
+        }
+    }
+    let vals = [None, Some(RefAtt::Atom(0, b"A".to_vec())), Some(RefAtt::Atom(1, b"A".to_vec()))];
+    for n in 0..3 {
+        for val in &vals {
+            v.push(set_att(u, RefSlot::Node(0, n), val.clone()));
+        }
+    }
+    for e in 0..2 {
+        for val in &vals {
+            v.push(set_att(u, RefSlot::Edge(0, e), val.clone()));
+        }
+    }
+    v
+}
+
+/// Reduced single-instance alphabet (nodes n0,n1; edge e0; one payload): 17 ops — small enough
+/// for all op sets of size <= 3.
+fn alphabet_a_reduced(u: &Universe) -> Vec<WarpOp> {
+    let mut v = vec![up_node(u, 0, 1, 0), up_node(u, 0, 1, 1), del_node(u, 0, 1)];
+    for f in 0..2 {
+        for t in 0..2 {
+            for ty in 0..2 {
+                v.push(up_edge(u, 0, 0, f, t, ty));
+            }
+        }
+        v.push(del_edge(u, 0, 0, f));
+    }
+    for val in [None, Some(RefAtt::Atom(0, b"A".to_vec()))] {
+        v.push(set_att(u, RefSlot::Node(0, 1), val.clone()));
+        v.push(set_att(u, RefSlot::Edge(0, 0), val));
+    }
+    v
+}
+
+/// Multi-instance alphabet over U_B's ids: 26 ops (portal open/close, instance upsert/delete,
+/// re-link, skeleton edits in parent and child).
+fn alphabet_b(u: &Universe) -> Vec<WarpOp> {
+    let mut v = Vec::new();
+    for s in [RefSlot::Node(0, 0), RefSlot::Node(0, 1), RefSlot::Edge(0, 0)] {
+        v.push(open_portal(u, s, 1, 0, 0));
+    }
+    v.push(open_portal(u, RefSlot::Node(1, 0), 2, 0, 0));
+    for w in [1u8, 2] {
+        v.push(WarpOp::DeleteWarpInstance { warp_id: u.warp(w) });
+    }
+    for s in [RefSlot::Node(0, 0), RefSlot::Node(0, 1), RefSlot::Edge(0, 0)] {
+        v.push(WarpOp::UpsertWarpInstance {
+            instance: u.instance_record(
+                1,
+                &RefInstance {
+                    root: 0,
+                    parent: Some(s),
+                },
+            ),
+        });
+    }
+    for s in [RefSlot::Node(0, 0), RefSlot::Node(0, 1), RefSlot::Edge(0, 0), RefSlot::Node(1, 0)] {
+        v.push(set_att(u, s, None));
+    }
+    v.push(set_att(u, RefSlot::Node(0, 1), Some(RefAtt::Atom(0, b"A".to_vec()))));
+    v.push(set_att(u, RefSlot::Node(0, 1), Some(RefAtt::Descend(1))));
+    v.push(up_node(u, 0, 1, 0));
+    v.push(up_node(u, 1, 1, 0));
+    v.push(up_node(u, 1, 0, 1));
+    v.push(del_node(u, 0, 1));
+    v.push(del_node(u, 1, 1));
+    v.push(up_edge(u, 0, 0, 0, 1, 0));
+    v.push(up_edge(u, 0, 0, 1, 0, 0));
+    v.push(up_edge(u, 1, 0, 0, 1, 0));
+    v.push(del_edge(u, 0, 0, 0));
+    v.push(del_edge(u, 0, 0, 1));
+    v.push(del_edge(u, 1, 0, 0));
+    v
+}
+
+fn target_warp(op: &WarpOp) -> Option<warp_core::WarpId> {
+    match op {
+        WarpOp::OpenPortal { .. } => None,
+        WarpOp::UpsertNode { node, .. } | WarpOp::DeleteNode { node } => Some(node.warp_id),
+        WarpOp::UpsertEdge { warp_id, .. } | WarpOp::DeleteEdge { warp_id, .. } => Some(*warp_id),
+        WarpOp::SetAttachment { key, .. } => Some(match key.owner {
+            AttachmentOwner::Node(n) => n.warp_id,
+            AttachmentOwner::Edge(e) => e.warp_id,
+        }),
+        WarpOp::UpsertWarpInstance { instance } => Some(instance.warp_id),
+        WarpOp::DeleteWarpInstance { warp_id } => Some(*warp_id),
+    }
+}
+
+/// All op sets of size 1..=k over `alpha` that the merge step would hand to the applier: no two
+/// ops with the same sort key, no write into a warp opened (Empty) in the same set.
+fn op_sets(alpha: &[WarpOp], k: usize) -> Vec<Vec<usize>> {
+    let mut out = Vec::new();
+    for sz in 1..=k {
+        for set in mc::enumerate::subsets_k(alpha.len(), sz) {
+            let mut ok = true;
+            for i in 0..set.len() {
+                for j in (i + 1)..set.len() {
+                    if alpha[set[i]].sort_key() == alpha[set[j]].sort_key() {
+                        ok = false;
+                    }
+                }
+                if let WarpOp::OpenPortal { child_warp, .. } = &alpha[set[i]] {
+                    for (j, x) in set.iter().enumerate() {
+                        if j != i && target_warp(&alpha[*x]) == Some(*child_warp) {
+                            ok = false;
+                        }
+                    }
+                }
+            }
+            if ok {
+                out.push(set);
+            }
+        }
+    }
+    out
+}
+
+#[derive(Default)]
+struct TickAcc {
+    attempted: u64,
+    committed: u64,
+    committed_changing: u64,
+    replay_exact: u64,
+    rejected: BTreeMap<&'static str, u64>,
+    /// (symptom signature without op set, live op-kind bits, state index, op-set index)
+    bad: Vec<(String, u8, u32, u32)>,
+    post_outside_universe: u64,
+    illformed: BTreeMap<&'static str, u64>,
+    classes: std::collections::HashSet<u128>,
+}
+
+struct Family<'a> {
+    label: String,
+    uni: &'a Uni,
+    states: Vec<usize>,
+    alpha: Vec<WarpOp>,
+    sets: Vec<Vec<usize>>,
+}
+
+fn run_one(u: &Universe, a: &RefState, real_a: &WarpState, ops: Vec<WarpOp>) -> (Result<Verdict, &'static str>, Option<RefState>, bool) {
+    // step 1: the live application (apply_reserved_rewrites)
+    let live_patch = patch_of(ops);
+    let mut live = real_a.clone();
+    match mc::catch(|| live_patch.apply_to_state(&mut live)) {
+        Err(p) => {
+            return (
+                Ok(Verdict::Bad(vec![format!("tick-emulation:panic-in-live-apply:{}", p.chars().take(60).collect::<String>())], false)),
+                None,
+                false,
+            )
+        }
+        Ok(Err(e)) => return (Err(error_variant(&e)), None, false),
+        Ok(Ok(())) => {}
+    }
+    let post = match u.coherent(&live) {
+        Ok(p) => p,
+        Err(msg) => {
+            return (
+                Ok(Verdict::Bad(vec![format!("tick-emulation:live-state-incoherent:{}", msg.chars().take(70).collect::<String>())], false)),
+                None,
+                false,
+            )
+        }
+    };
+    // step 2: the emitted patch (commit_with_receipt) and its replay on the pre-state
+    let rk = u.root_key(a);
+    let root_post = hooks::snapshot::state_root(&live, &rk);
+    let emitted = match mc::catch(|| hooks::tick_patch::diff_state(real_a, &live)) {
+        Ok(o) => patch_of(o),
+        Err(p) => {
+            return (
+                Ok(Verdict::Bad(vec![format!("tick-emulation:panic-in-diff_state:{}", p.chars().take(60).collect::<String>())], false)),
+                Some(post),
+                false,
+            )
+        }
+    };
+    let changing = !emitted.ops().is_empty();
+    let (v, _) = apply_and_judge(u, a, real_a, &post, &root_post, &emitted, "tick-emulation");
+    let v = match v {
+        Verdict::Typed(name, e) => Verdict::Bad(
+            vec![format!(
+                "tick-emulation:replay-of-committed-tick-fails:{name}:{}",
+                typed_error_class(u, a, &post, &e)
+            )],
+            false,
+        ),
+        other => other,
+    };
+    (Ok(v), Some(post), changing)
+}
+
+fn run_family(r: &Report, fam: &Family, viol: &mut BTreeMap<String, (u64, Value)>) -> bool {
+    let t0 = r.elapsed_s();
+    let uni = fam.uni;
+    let parts: Vec<Option<TickAcc>> = fam
+        .states
+        .par_iter()
+        .map(|&si| {
+            if r.over_budget() {
+                return None;
+            }
+            let a = &uni.states[si];
+            let real_a = uni.u.build(a);
+            let mut acc = TickAcc::default();
+            for (oi, set) in fam.sets.iter().enumerate() {
+                let ops: Vec<WarpOp> = set.iter().map(|i| fam.alpha[*i].clone()).collect();
+                let kinds = op_kind_bits(&ops);
+                acc.attempted += 1;
+                let (res, post, changing) = run_one(&uni.u, a, &real_a, ops);
+                match res {
+                    Err(variant) => {
+                        *acc.rejected.entry(variant).or_insert(0) += 1;
+                    }
+                    Ok(v) => {
+                        acc.committed += 1;
+                        if changing {
+                            acc.committed_changing += 1;
+                        }
+                        if let Some(p) = &post {
+                            if !p.well_formed() {
+                                // the tick left an ill-formed state (e.g. a dangling edge): outside
+                                // the property's "well-formed states"; outcome recorded, not judged
+                                acc.post_outside_universe += 1;
+                                let k = match &v {
+                                    Verdict::Exact => "replay-exact",
+                                    Verdict::Bad(s, _) if s.iter().any(|x| x.contains("replay-of-committed-tick-fails")) => "replay-typed-error",
+                                    _ => "replay-differs",
+                                };
+                                *acc.illformed.entry(k).or_insert(0) += 1;
+                                continue;
+                            }
+                        }
+                        let vk = match &v {
+                            Verdict::Exact => {
+                                acc.replay_exact += 1;
+                                "exact".to_string()
+                            }
+                            Verdict::Typed(..) => "typed".to_string(),
+                            Verdict::Bad(sigs, _) => {
+                                for s in sigs {
+                                    acc.bad.push((s.clone(), kinds, si as u32, oi as u32));
+                                }
+                                sigs.join("|")
+                            }
+                        };
+                        if changing {
+                            let flags = post.as_ref().map_or(0, |p| pair_flags(a, p));
+                            acc.classes.insert(Report::key(
+                                format!("tick|{}|{kinds:x}|{flags:x}|{vk}", uni.name).as_bytes(),
+                            ));
+                        }
+                    }
+                }
+            }
+            Some(acc)
+        })
+        .collect();
+    let mut tot = TickAcc::default();
+    let mut complete = true;
+    for p in parts {
+        let Some(p) = p else {
+            complete = false;
+            continue;
+        };
+        tot.attempted += p.attempted;
+        tot.committed += p.committed;
+        tot.committed_changing += p.committed_changing;
+        tot.replay_exact += p.replay_exact;
+        tot.post_outside_universe += p.post_outside_universe;
+        for (k, n) in p.rejected {
+            *tot.rejected.entry(k).or_insert(0) += n;
+        }
+        for (k, n) in p.illformed {
+            *tot.illformed.entry(k).or_insert(0) += n;
+        }
+        tot.bad.extend(p.bad);
+        tot.classes.extend(p.classes);
+    }
+    if !complete {
+        r.cap_hit(&format!("tick emulation family '{}' interrupted by the wall cap", fam.label));
+    }
+    // fold failures onto minimal live op-kind sets per symptom
+    let sz = |si: u32| state_size(&uni.states[si as usize]);
+    tot.bad.sort_by(|x, y| {
+        (x.0.as_str(), x.1.count_ones(), fam.sets[x.3 as usize].len(), x.1, sz(x.2), x.2, x.3)
+            .cmp(&(y.0.as_str(), y.1.count_ones(), fam.sets[y.3 as usize].len(), y.1, sz(y.2), y.2, y.3))
+    });
+    let mut gens: Vec<(String, u8)> = Vec::new();
+    for (sym, kinds, si, oi) in &tot.bad {
+        let g = match gens.iter().find(|(s, g)| s == sym && (g & kinds) == *g) {
+            Some(g) => g.clone(),
+            None => {
+                gens.push((sym.clone(), *kinds));
+                (sym.clone(), *kinds)
+            }
+        };
+        let names: Vec<&str> = (0..8).filter(|i| g.1 & (1 << i) != 0).map(|i| OP_KINDS[i]).collect();
+        let sig = format!("{}:tick-ops={}", g.0, names.join("+"));
+        match viol.get_mut(&sig) {
+            Some(e) => e.0 += 1,
+            None => {
+                let d = tick_detail(uni, *si as usize, &fam.sets[*oi as usize].iter().map(|i| fam.alpha[*i].clone()).collect::<Vec<_>>());
+                viol.insert(sig, (1, d));
+            }
+        }
+    }
+    r.eval(tot.committed);
+    r.nontrivial_many(tot.classes.iter().copied());
+    r.counter("tick_emulation:op_sets_attempted", tot.attempted);
+    r.counter("tick_emulation:ticks_committed", tot.committed);
+    r.counter("tick_emulation:ticks_committed_changing_state", tot.committed_changing);
+    r.counter("tick_emulation:replay_exact", tot.replay_exact);
+    r.counter("tick_emulation:post_states_outside_the_well_formed_universe", tot.post_outside_universe);
+    for (k, n) in &tot.rejected {
+        r.outcome_n(&format!("tick_emulation:live_apply_rejected:{k}"), *n);
+    }
+    for (k, n) in &tot.illformed {
+        r.outcome_n(&format!("tick_emulation:ill_formed_post_state_not_judged:{k}"), *n);
+    }
+    r.outcome_n("tick_emulation:replay_exactly_post_state", tot.replay_exact);
+    r.note(
+        &format!("tick_emulation:{}", fam.label),
+        json!({"pre_states": fam.states.len(), "alphabet_ops": fam.alpha.len(), "op_sets": fam.sets.len(),
+               "attempted": tot.attempted, "committed": tot.committed, "committed_changing_state": tot.committed_changing,
+               "replay_exact": tot.replay_exact, "wall_s": ((r.elapsed_s() - t0) * 10.0).round() / 10.0}),
+    );
+    complete
+}
+
+fn short(u: &Universe, op: &WarpOp) -> String {
+    let mut s = format!("{op:?}");
+    for (i, w) in u.warps.iter().enumerate() {
+        s = s.replace(&format!("{:?}", w.0), &format!("W{i}"));
+    }
+    for (i, n) in u.nodes.iter().enumerate() {
+        s = s.replace(&format!("{:?}", n.0), &format!("n{i}"));
+    }
+    for (i, e) in u.edges.iter().enumerate() {
+        s = s.replace(&format!("{:?}", e.0), &format!("e{i}"));
+    }
+    for (i, t) in u.types.iter().enumerate() {
+        s = s.replace(&format!("{:?}", t.0), &format!("t{i}"));
+    }
+    s
+}
+
+fn tick_detail(uni: &Uni, si: usize, ops: &[WarpOp]) -> Value {
+    let a = &uni.states[si];
+    let real_a = uni.u.build(a);
+    let live_patch = patch_of(ops.to_vec());
+    let mut live = real_a.clone();
+    let live_res = mc::catch(|| live_patch.apply_to_state(&mut live));
+    let post = uni.u.read(&live).ok();
+    let emitted = patch_of(hooks::tick_patch::diff_state(&real_a, &live));
+    let mut replay = real_a.clone();
+    let rep = mc::catch(|| emitted.apply_to_state(&mut replay));
+    let rk = uni.u.root_key(a);
+    json!({
+        "case": {"kind": "engine-tick", "universe": uni.name, "level": uni.level, "pre_index": si, "pre": a.to_json(),
+                 "tick_ops_debug": live_patch.ops().iter().map(|o| format!("{o:?}")).collect::<Vec<_>>()},
+        "tick_ops": live_patch.ops().iter().map(|o| short(&uni.u, o)).collect::<Vec<_>>(),
+        "live_apply": format!("{live_res:?}"),
+        "post": post.as_ref().map(|p| p.to_json()),
+        "post_state_root": mc::hex(&hooks::snapshot::state_root(&live, &rk)),
+        "emitted_patch_ops": emitted.ops().iter().map(|o| short(&uni.u, o)).collect::<Vec<_>>(),
+        "replay_on_pre": format!("{rep:?}"),
+        "replayed": uni.u.read(&replay).ok().map(|p| p.to_json()),
+        "replayed_state_root": mc::hex(&hooks::snapshot::state_root(&replay, &rk)),
+    })
+}
+
+pub fn run(r: &Report, viol: &mut BTreeMap<String, (u64, Value)>) {
+    r.assume("tick emulation: an op set stands for the merged delta of one tick; it is applied and diffed with the engine's own two steps (WarpTickPatchV1::new(O).apply_to_state, then diff_state(before, after)); matching, scheduling, footprint enforcement and merge conflict detection are not modelled");
+    let ua = Uni::a(0);
+    let ub = Uni::b(0);
+    let all_a: Vec<usize> = (0..ua.states.len()).collect();
+    // sub-universe for op triples: states without n2 and without e1
+    let small_a: Vec<usize> = (0..ua.states.len())
+        .filter(|i| {
+            let s = &ua.states[*i];
+            !s.nodes.contains_key(&(0, 2)) && !s.edges.contains_key(&(0, 1))
+        })
+        .collect();
+    let all_b: Vec<usize> = (0..ub.states.len()).collect();
+    let full = alphabet_a_full(&ua.u);
+    let red = alphabet_a_reduced(&ua.u);
+    let alb = alphabet_b(&ub.u);
+    let mut fams = vec![
+        Family {
+            label: "U_A0:all-states x full-alphabet(65) sets<=1".into(),
+            uni: &ua,
+            states: all_a.clone(),
+            sets: op_sets(&full, 1),
+            alpha: full.clone(),
+        },
+        Family {
+            label: format!("U_A0:states-without-n2-e1({}) x reduced-alphabet(17) sets<=3", small_a.len()),
+            uni: &ua,
+            states: small_a.clone(),
+            sets: op_sets(&red, 3),
+            alpha: red.clone(),
+        },
+        Family {
+            label: "U_B0:all-states x portal-alphabet(26) sets<=2".into(),
+            uni: &ub,
+            states: all_b.clone(),
+            sets: op_sets(&alb, 2),
+            alpha: alb.clone(),
+        },
+    ];
+    if r.thorough() {
+        fams.push(Family {
+            label: "U_A0:all-states x full-alphabet(65) sets==2".into(),
+            uni: &ua,
+            states: all_a.clone(),
+            sets: op_sets(&full, 2).into_iter().filter(|s| s.len() == 2).collect(),
+            alpha: full.clone(),
+        });
+        fams.push(Family {
+            label: "U_A0:all-states x reduced-alphabet(17) sets==3".into(),
+            uni: &ua,
+            states: all_a.clone(),
+            sets: op_sets(&red, 3).into_iter().filter(|s| s.len() == 3).collect(),
+            alpha: red.clone(),
+        });
+        fams.push(Family {
+            label: "U_B0:all-states x portal-alphabet(26) sets==3".into(),
+            uni: &ub,
+            states: all_b.clone(),
+            sets: op_sets(&alb, 3).into_iter().filter(|s| s.len() == 3).collect(),
+            alpha: alb.clone(),
+        });
+    }
+    for f in &fams {
+        if r.over_budget_frac(0.9) {
+            r.cap_hit(&format!("tick emulation family '{}' not run (time budget)", f.label));
+            continue;
+        }
+        run_family(r, f, viol);
+    }
+    r.guard("tick_emulation:ticks_committed>0", r.counter_value("tick_emulation:ticks_committed_changing_state") > 0);
+    r.guard("tick_emulation:replay_exact>0", r.counter_value("tick_emulation:replay_exact") > 0);
+}
+
+pub fn replay(r: &Report, case: &Value) {
+    let name = case["universe"].as_str().unwrap_or("U_A");
+    let level = case["level"].as_u64().unwrap_or(0) as u8;
+    let Some(uni) = Uni::by_name(name, level) else {
+        r.machinery_error("replay: unknown universe");
+        return;
+    };
+    let si = case["pre_index"].as_u64().unwrap_or(0) as usize;
+    if si >= uni.states.len() || uni.states[si].to_json() != case["pre"] {
+        r.machinery_error("replay: pre_index no longer denotes the recorded state");
+        return;
+    }
+    // the ops are recovered by matching their Debug rendering against the alphabets
+    let want: Vec<String> = case["tick_ops_debug"]
+        .as_array()
+        .map(|a| a.iter().filter_map(|x| x.as_str().map(String::from)).collect())
+        .unwrap_or_default();
+    let mut pool = alphabet_a_full(&uni.u);
+    pool.extend(alphabet_a_reduced(&uni.u));
+    pool.extend(alphabet_b(&uni.u));
+    let mut ops = Vec::new();
+    for w in &want {
+        match pool.iter().find(|o| &format!("{o:?}") == w) {
+            Some(o) => ops.push(o.clone()),
+            None => {
+                r.machinery_error("replay: recorded op not found in the alphabets");
+                return;
+            }
+        }
+    }
+    let d = tick_detail(&uni, si, &ops);
+    println!("{}", serde_json::to_string_pretty(&d).unwrap_or_default());
+    r.rule("replay of one recorded emulated tick");
+    r.eval(1);
+    r.nontrivial(b"replay");
+    r.nontrivial(b"replay-2");
+    r.sample(d.clone());
+    let a = &uni.states[si];
+    let real_a = uni.u.build(a);
+    let kinds = op_kind_bits(&ops);
+    if let (Ok(Verdict::Bad(sigs, _)), _, _) = run_one(&uni.u, a, &real_a, ops) {
+        let names: Vec<&str> = (0..8).filter(|i| kinds & (1 << i) != 0).map(|i| OP_KINDS[i]).collect();
+        for s in sigs {
+            r.violation(&format!("{s}:tick-ops={}", names.join("+")), d.clone());
+        }
+    }
 }
